@@ -172,6 +172,8 @@ def plan(prop):
             obs.append((prag, lambda ctx, k=kinds, d=dims: po.ob_checker_load(ctx, k, d)))
         for n in ((1, 2, 3) if Q else (1, 2, 3, 4, 5)):
             obs.append((prag, lambda ctx, n=n: po.ob_checker_routing(ctx, n)))
+        for lay in ((('d',), ('p', 'd'), ('d', 'd'), ('p', 'p', 'd')) if Q else (('d',), ('p',), ('s',), ('r',), ('p', 'd'), ('d', 'd'), ('p', 'p'), ('p', 'p', 'd'), ('p', 'd', 'd'), ('d', 's'), ('p', 'd', 'r', 's'))):
+            obs.append((prag, lambda ctx, lay=lay: po.ob_checker_demand(ctx, lay)))
     if prop == 'C18':
         import ieee_obligations as io
         obs.append(('rosomaxa', lambda ctx: io.ob_max_generation(ctx)))
